@@ -25,19 +25,18 @@ Proof.
   unfold normalize. cbn [flat_map norm1]. rewrite trim_ws_str. reflexivity.
 Qed.
 
-Lemma normalize_insert_ws its : forall ws prev,
-  normalize (rawtoks_of_items (insert_ws_from ws prev its)) = normalize (rawtoks_of_items its).
+Lemma normalize_insert_ws its : forall ws,
+  normalize (rawtoks_of_items (insert_ws_from ws its)) = normalize (rawtoks_of_items its).
 Proof.
-  induction its as [|i t IH]; intros ws prev.
-  - cbn [insert_ws_from]. destruct ws as [|w ws']; [reflexivity|].
-    destruct prev; [reflexivity|apply normalize_ws_text].
+  induction its as [|i t IH]; intros ws.
+  - cbn [insert_ws_from]. destruct ws as [|w ws']; [reflexivity|apply normalize_ws_text].
   - cbn [insert_ws_from].
     rewrite rawtoks_items_app, normalize_app.
-    change (i :: insert_ws_from match ws with [] => [] | _ :: ws' => ws' end (is_text_item i) t)
-      with ([i] ++ insert_ws_from match ws with [] => [] | _ :: ws' => ws' end (is_text_item i) t).
+    change (i :: insert_ws_from match ws with [] => [] | _ :: ws' => ws' end t)
+      with ([i] ++ insert_ws_from match ws with [] => [] | _ :: ws' => ws' end t).
     rewrite rawtoks_items_app, normalize_app, IH.
     change (i :: t) with ([i] ++ t). rewrite rawtoks_items_app, normalize_app.
-    destruct (prev || is_text_item i); [reflexivity|].
+    destruct (is_text_item i); [reflexivity|].
     rewrite normalize_ws_text. reflexivity.
 Qed.
 
@@ -77,9 +76,9 @@ Proof.
 Qed.
 
 Lemma norm_kids kids :
-  Forall (fun k => node_ok o true k = true ->
+  Forall (fun k => node_ok o k = true ->
                    normalize (rawtoks_of_items (items false k)) = normalize (map rt_of_tok (rawtoks_of k))) kids ->
-  forallb (node_ok o true) kids = true ->
+  forallb (node_ok o) kids = true ->
   normalize (rawtoks_of_items (flat_map (items false) kids))
   = normalize (map rt_of_tok (flat_map rawtoks_of kids)).
 Proof.
@@ -90,13 +89,12 @@ Proof.
 Qed.
 
 Lemma items_tokens d : forall root,
-  node_ok o true d = true ->
+  node_ok o d = true ->
   normalize (rawtoks_of_items (items root d)) = normalize (map rt_of_tok (rawtoks_of d)).
 Proof.
   induction d as [nm a text kids IH|x|x|t i] using node_ind2; intros root Hok; try reflexivity.
   cbn [node_ok] in Hok.
   apply andb_true_iff in Hok. destruct Hok as [Hok Hkids].
-  apply andb_true_iff in Hok. destruct Hok as [Hok Halone].
   apply andb_true_iff in Hok. destruct Hok as [Hok Hp1].
   apply andb_true_iff in Hok. destruct Hok as [Hok Hd1].
   apply andb_true_iff in Hok. destruct Hok as [Hok Hc1].
@@ -119,29 +117,110 @@ Proof.
     with ([RStart (xfull nm) (map (fun at_ : xattr => (xfull (aname at_), avalue at_)) a)]
           ++ map rt_of_tok match text with [] => [] | _ :: _ => [TChar text] end
              ++ map rt_of_tok (flat_map rawtoks_of kids) ++ [REnd (xfull nm)]).
-  rewrite !normalize_app, Htxt.
-  destruct (trim trim_all text) as [|c x] eqn:Et.
-  - rewrite <- Htrim. cbn [app].
-    destruct kids as [|k1 kt].
-    + destruct (root && has_attrs a); cbn; rewrite Hra; reflexivity.
-    + set (kids := k1 :: kt) in *.
-      change (SI (IOpen (xfull nm) (attr_items e a)) :: flat_map (items false) kids ++ [SI (IClose (xfull nm))])
-        with ([SI (IOpen (xfull nm) (attr_items e a))] ++ flat_map (items false) kids ++ [SI (IClose (xfull nm))]).
-      rewrite !rawtoks_items_app, !normalize_app.
-      rewrite (norm_kids kids); [|eapply Forall_impl; [|exact IH]; cbn beta; intros k Hk Ok1; apply Hk; exact Ok1|exact Hkids].
-      cbn. rewrite Hra. reflexivity.
-  - assert (Hk0 : kids = []).
-    { rewrite <- Htrim in Halone. cbn [nonempty negb orb] in Halone.
-      destruct kids; [reflexivity|discriminate Halone]. }
-    subst kids. rewrite <- Htrim.
+  rewrite !normalize_app, Htxt. rewrite <- Htrim.
+  (* the text item, when there is one, reads back as the trimmed text *)
+  assert (Htext_item : forall c x, trim trim_all text = c :: x ->
+            normalize (rawtoks_of_items [SI (IText (esc o (c :: x)))]) = [RChar (c :: x)]).
+  { intros c x Et.
     assert (Hv : value_ok o (c :: x) = true) by (rewrite <- Et; apply value_ok_trim; exact Htv).
     assert (Hne : esc o (c :: x) <> []) by (apply esc_nonempty; [exact Hv|discriminate]).
     unfold rawtoks_of_items. cbn [flat_map rt1 app].
     destruct (esc o (c :: x)) as [|c1 x1] eqn:Ee; [congruence|]. rewrite <- Ee.
-    rewrite (unescape_esc o _ Hv). rewrite Hra.
-    cbn [normalize flat_map norm1 app map].
+    rewrite (unescape_esc o _ Hv).
+    cbn [normalize flat_map norm1 app].
     assert (Hid : trim xml_ws (c :: x) = c :: x).
-    { rewrite Htrim. apply trim_idem. }
-    rewrite Hid. reflexivity.
+    { rewrite <- Et. rewrite Htrim. apply trim_idem. }
+    rewrite Hid. reflexivity. }
+  destruct kids as [|k1 kt].
+  - destruct (trim trim_all text) as [|c x] eqn:Et.
+    + destruct (root && has_attrs a); cbn; rewrite Hra; reflexivity.
+    + change [SI (IOpen (xfull nm) (attr_items e a)); SI (IText (esc o (c :: x))); SI (IClose (xfull nm))]
+        with ([SI (IOpen (xfull nm) (attr_items e a))] ++ [SI (IText (esc o (c :: x)))] ++ [SI (IClose (xfull nm))]).
+      rewrite !rawtoks_items_app, !normalize_app. rewrite (Htext_item c x eq_refl).
+      cbn. rewrite Hra. reflexivity.
+  - set (kids := k1 :: kt) in *.
+    change (SI (IOpen (xfull nm) (attr_items e a))
+            :: match trim trim_all text with [] => [] | c :: x => [SI (IText (esc o (c :: x)))] end
+               ++ flat_map (items false) kids ++ [SI (IClose (xfull nm))])
+      with ([SI (IOpen (xfull nm) (attr_items e a))]
+            ++ match trim trim_all text with [] => [] | c :: x => [SI (IText (esc o (c :: x)))] end
+               ++ flat_map (items false) kids ++ [SI (IClose (xfull nm))]).
+    rewrite !rawtoks_items_app, !normalize_app.
+    rewrite (norm_kids kids); [|eapply Forall_impl; [|exact IH]; cbn beta; intros k Hk Ok1; apply Hk; exact Ok1|exact Hkids].
+    destruct (trim trim_all text) as [|c x] eqn:Et.
+    + cbn. rewrite Hra. reflexivity.
+    + rewrite (Htext_item c x eq_refl). cbn. rewrite Hra. reflexivity.
 Qed.
 End Tok.
+
+(* ---------------- adjacent character data: text followed by indentation ----------------
+   The tokenizer returns ONE CharData for a text run followed by the line break and padding the
+   indented encoder writes before the first child.  Under [normalize] that merged reading equals the
+   unmerged one [rawtoks_of_items] uses. *)
+Lemma unesc_escape_app v rest : unesc (escape_chars v ++ rest) 0 = v ++ unesc rest 0.
+Proof.
+  induction v as [|c t IH]; [reflexivity|].
+  rewrite escape_chars_cons, <- app_assoc, unesc_esc1, IH. reflexivity.
+Qed.
+
+Lemma unesc_noamp_app v rest : mem_ascii "&"%char v = false -> unesc (v ++ rest) 0 = v ++ unesc rest 0.
+Proof.
+  induction v as [|c t IH]; intros H; [reflexivity|].
+  change (mem_ascii "&"%char (c :: t)) with (Ascii.eqb "&"%char c || mem_ascii "&"%char t) in H.
+  apply orb_false_iff in H. destruct H as [Hc Ht].
+  cbn [app unesc ent_at entity_table s list_ascii_of_string prefixb].
+  rewrite Hc. cbn [andb]. f_equal. apply IH. exact Ht.
+Qed.
+
+Lemma unescape_esc_app o v w :
+  value_ok o v = true -> unescape (esc o v ++ ws_str w) = v ++ ws_str w.
+Proof.
+  intros H. unfold unescape.
+  assert (Hw : unesc (ws_str w) 0 = ws_str w) by (apply (unescape_noamp _ (ws_str_noamp w))).
+  unfold value_ok in H. unfold esc. destruct (xmlEscapeChars o).
+  - rewrite unesc_escape_app, Hw. reflexivity.
+  - cbn [orb] in H. apply negb_true_iff in H.
+    rewrite (unesc_noamp_app _ _ (specials_amp _ H)), Hw. reflexivity.
+Qed.
+
+Lemma trim_left_app cut v w :
+  trim_left cut (v ++ w) = match trim_left cut v with [] => trim_left cut w | y => y ++ w end.
+Proof.
+  induction v as [|c t IH]; cbn [app trim_left].
+  - destruct (trim_left cut w); reflexivity.
+  - destruct (mem_ascii c cut); [exact IH|reflexivity].
+Qed.
+
+Lemma trim_app_cut cut v w :
+  forallb (fun c => mem_ascii c cut) w = true -> trim cut (v ++ w) = trim cut v.
+Proof.
+  intros Hw. unfold trim. rewrite trim_left_app.
+  destruct (trim_left cut v) as [|h y] eqn:E.
+  - rewrite (trim_left_all _ _ Hw). reflexivity.
+  - unfold trim_right. rewrite rev_app_distr, trim_left_app.
+    assert (Hr : forallb (fun c => mem_ascii c cut) (rev w) = true).
+    { apply forallb_forall. intros c Hc. apply in_rev in Hc.
+      rewrite forallb_forall in Hw. apply Hw. exact Hc. }
+    rewrite (trim_left_all _ _ Hr). reflexivity.
+Qed.
+
+Lemma ws_str_in_cut w : forallb (fun c => mem_ascii c xml_ws) (ws_str w) = true.
+Proof. unfold ws_str. induction w as [|c t IH]; [reflexivity|]. cbn [map forallb]. rewrite IH. destruct c; reflexivity. Qed.
+
+Lemma text_then_ws_merges o v w :
+  value_ok o v = true ->
+  normalize (rawtoks_of_items [SI (IText (esc o v ++ ws_str w))])
+  = normalize (rawtoks_of_items [SI (IText (esc o v)); SI (IText (ws_str w))]).
+Proof.
+  intros H.
+  assert (Hu := unescape_esc_app o v w H). assert (Hv := unescape_esc o v H).
+  assert (Hw : normalize (rawtoks_of_items [SI (IText (ws_str w))]) = []).
+  { destruct w as [|c t]; [reflexivity|]. apply (normalize_ws_text (c :: t)). }
+  change [SI (IText (esc o v)); SI (IText (ws_str w))] with ([SI (IText (esc o v))] ++ [SI (IText (ws_str w))]).
+  rewrite rawtoks_items_app, normalize_app, Hw, app_nil_r.
+  unfold rawtoks_of_items. cbn [flat_map rt1]. rewrite !app_nil_r.
+  destruct (esc o v) as [|c1 x1] eqn:Ee.
+  - cbn [app]. unfold rawtoks_of_items in Hw. cbn [flat_map rt1] in Hw. rewrite app_nil_r in Hw. exact Hw.
+  - cbn [app] in *. rewrite Hu, Hv. unfold normalize. cbn [flat_map norm1].
+    rewrite (trim_app_cut xml_ws v (ws_str w) (ws_str_in_cut w)). reflexivity.
+Qed.
